@@ -33,7 +33,7 @@ func TestMain(m *testing.M) {
 				continue
 			}
 			idle++
-			if idle >= 60 {
+			if idle >= 30 {
 				buf := make([]byte, 1<<22)
 				n := runtime.Stack(buf, true)
 				fmt.Fprintf(os.Stderr, "WATCHDOG: no scheduling progress for %ds\n%s\n", idle, buf[:n])
